@@ -145,6 +145,7 @@ type Exec struct {
 	allocHere  map[string]bool // ref symbols introduced by allocations of this activation
 	recBusy map[string]bool
 	exitHits map[string]int
+	returnPCs []string // path conditions of the returns of the function under verification
 	atCallArgs map[string]Val // callee parameter name -> argument, while an at-call clause is evaluated
 	atCallSkipped map[string]bool
 	inferN, inferQueries int
